@@ -413,6 +413,17 @@ def _called_names(node):
                 names.add(f.attr)
             elif isinstance(f, ast.Name):
                 names.add(f.id)
+            # callbacks: a function or bound method handed over as an argument (call_later, partial,
+            # add_done_callback, to_thread, sorted(key=...), ...) counts as called by the enclosing function
+            for a in list(n.args) + [k.value for k in n.keywords]:
+                if isinstance(a, ast.Starred):
+                    a = a.value
+                if isinstance(a, ast.Attribute):
+                    names.add("cb:" + a.attr)
+                elif isinstance(a, ast.Name):
+                    names.add("cb:" + a.id)
+                elif isinstance(a, ast.Lambda):
+                    names |= _called_names(a.body)
         # SQL constants used by name: db.execute(UPDATE_OPTIONAL_STEPS)
         if isinstance(n, ast.Name) and n.id.isupper():
             names.add(n.id)
@@ -446,6 +457,8 @@ def call_graph():
 
 
 def _resolve(name, from_file, defs):
+    if name.startswith("cb:"):
+        name = name[3:]
     """Functions a call of `name` made in `from_file` may denote: a definition of the same file,
     or a method / function of the graph modules (name-based: sound over-approximation for the calls
     that go through Workflow / Node objects; callbacks are not followed)."""
